@@ -156,6 +156,16 @@ def check_case(rec, case):
                     return
             for q in sorted(N.Q):
                 call(na.epsilon_closure, N, q)
+            Rnow = adapt.nfa_ref(N)
+            for S_ in [[q] for q in sorted(N.Q)] + [sorted(N.Q)[:2], sorted(N.Q)]:
+                arg = S_[0] if len(S_) == 1 and mr.random() < 0.7 else set(S_)     # the method on the class, asked again after every change
+                o = call(N.E, arg)
+                rec.ev('NFA.E')
+                exp = fa.eps_closure_bfs(Rnow, S_)
+                if not o.ok:
+                    report_failure(rec, o, 'NFA.E', states=S_, step=step)
+                elif not isinstance(o.value, (set, frozenset)) or set(o.value) != set(exp):
+                    rec.violation('NFA.E:wrong_set', 'N.E differs from epsilon reachability in the automaton as it is now', states=S_, step=step, expected=sorted(exp), observed=sorted(o.value), automaton=Rnow)
             # change the object in place: add / remove a move, an epsilon move, a state, toggle acceptance
             Q = sorted(N.Q)
             k = mr.randrange(5)
